@@ -17,6 +17,34 @@ CLAIMED = {
         design='§5 C06'),
 }
 
+CLAIMED.update({
+    'C01': dict(
+        text='Theorem layout_wellformed/layout_explicit: every output of the model\'s frameFile (SUL + one visible '
+             'record per segment) is accepted by the strict physical reader and has the explicit length/parity/'
+             'padding facts, for every record list and every valid record length; tied to the code by an exhaustive '
+             '(capacity, body length) window through the real make_segments, random record lists through the real '
+             'StorageUnitLabel+DLISWriter and whole DLISFile.write() runs compared with the model on the tapped records.',
+        note='Trusted: Lean kernel + standard axioms; harness; Parse.lean as the reading of RP66 sections 2.2.2/2.3.6.',
+        technique='Lean 4 proof (well-formedness invariant of the segmentation recursion) + differential correspondence',
+        design='§5 C01'),
+    'C02': dict(
+        text='Theorem segmentation_lossless: readFile (strict reader, reassembly strict about predecessor/successor '
+             'flags and constancy of flag/type) applied to frameFile\'s output returns exactly the records given, in '
+             'order, byte for byte, for all record lists and valid record lengths; flags_bracketed and '
+             'frameRecs_append give bracketing and non-interleaving. Tie: same correspondence as C01.',
+        note='Trusted: Lean kernel + standard axioms; harness; lr-tap hook reports the records the writer was given.',
+        technique='Lean 4 proof (round-trip reassemble . frameFile) + differential correspondence',
+        design='§5 C02'),
+    'C15': dict(
+        text='Theorems framing_total / framing_fails_iff / framing_faithful: framing succeeds for every body-length '
+             'list whenever the record length passes the validity check and the label fields fit, and the result is '
+             'well-formed and faithful; correspondence covers every capacity 12..40(64) x every length incl. < 12.',
+        note='Trusted: Lean kernel + standard axioms; harness. Whole-specification writability (EFLR/IFLR layers) is '
+             'covered by the file-level stream.',
+        technique='Lean 4 proof (totality of frameFile) + differential correspondence',
+        design='§5 C15'),
+})
+
 PENDING_REASON = 'check not built yet in this revision (model layer under construction); see DESIGN.md §12 build order'
 
 
